@@ -347,7 +347,10 @@ def gen_shared_edge(i):
 
 # ------------------------------------------------------------------------------------------------
 # family attr
-ATTR_SPECIALS = [("plain", "ab"), ("amp", "a&b"), ("lt", "a<b"), ("gt", "a>b"), ("quot", 'a"b'), ("apos", "a'b"), ("amp-entity-literal", "a&amp;b"), ("non-bmp", "a\U0001F600b"), ("space", "a b"), ("numeric-entity", "aéb")]
+ATTR_SPECIALS = [("plain", "ab"), ("amp", "a&b"), ("lt", "a<b"), ("gt", "a>b"), ("quot", 'a"b'), ("apos", "a'b"), ("amp-entity-literal", "a&amp;b"), ("non-bmp", "a\U0001F600b"), ("space", "a b"), ("numeric-entity", "aéb"),
+                 # white space written as a character reference (&#10; &#9; &#13;&#10;) is data, not attribute white space
+                 ("lf-charref", "Unit\nprice"), ("tab-charref", "a\tb"), ("crlf-charref", "a\r\nb")]
+ATTR_WS_CHANNELS = ["table-column", "defined-name-text", "cell-string-attr-mix"]
 ATTR_CHANNELS = ["sheet-name", "link-target", "link-location", "defined-name-text", "table-column", "numfmt-code", "cell-string-attr-mix"]
 
 
@@ -356,6 +359,9 @@ def gen_attr(i):
     si = i // len(ATTR_CHANNELS)
     ch = ATTR_CHANNELS[ci]
     sname, sp = ATTR_SPECIALS[si]
+    if sname.endswith("-charref") and ch not in ATTR_WS_CHANNELS:
+        # not a legal value of this channel (sheet names, URLs, format codes): the plain text takes its place
+        sname, sp = ATTR_SPECIALS[0]
     tags = ["attr", "ch:" + ch, "sp:" + sname, "ch:%s+sp:%s" % (ch, sname)]
     p = Pkg()
     cells = {ckey(1, 1): {"kind": "n", "value": "1", "bits": bits(1), "formula": ""}}
